@@ -6,7 +6,7 @@ from harness import core, pipeline
 
 
 def cfg(ops, depth, hist):
-    return ("CONSTANTS\n Slots <- S5\n GenOf <- G5\n InstOf <- I5\n Times <- T6\n MaxOps = %d\n MaxDepth = %d\n RecordHist = %s\n"
+    return ("CONSTANTS\n Slots <- S6\n GenOf <- G6\n InstOf <- I6\n Times <- T6\n MaxOps = %d\n MaxDepth = %d\n RecordHist = %s\n"
             "INIT Init\nNEXT Next\nCHECK_DEADLOCK FALSE\n%s\n" % (ops, depth, "TRUE" if hist else "FALSE",
                                                                 "INVARIANT Emit" if hist else "INVARIANT TypeOK\nINVARIANT CacheIsTerm\nPROPERTY CtxRestores\nPROPERTY SameTimeSameValue"))
 
@@ -15,11 +15,11 @@ def run(prop, tier, seed):
     t0 = time.time()
     quick = tier == "quick"
     M = "MC_TimeDyn.tla"
-    opts = {"gens": {"1": "A", "2": "B", "3": "A", "4": "K", "5": "C"}, "insts": {"1": 1, "2": 1, "3": 2, "4": 2, "5": 0},
+    opts = {"gens": {"1": "A", "2": "B", "3": "A", "4": "K", "5": "C", "6": "N"}, "insts": {"1": 1, "2": 1, "3": 2, "4": 2, "5": 0, "6": 1},
             "tolerate": [e["tag"] for e in core.KnownFindings(prop).open]}
     props = [{"module": M, "cfg": "C19_p.cfg", "extra_defs": {"C19_p.cfg": cfg(4 if quick else 5, 2, False)}}]
-    gens = [{"module": M, "cfg": "C19_g.cfg", "workers": 8, "extra_defs": {"C19_g.cfg": cfg(3 if quick else 4, 2, True)}},
-            {"module": M, "cfg": "C19_s.cfg", "workers": 8, "simulate": 400 if quick else 20000, "depth": 14, "seed": seed,
+    gens = [{"module": M, "cfg": "C19_g.cfg", "workers": 8, "extra_defs": {"C19_g.cfg": cfg(2 if quick else 3, 2, True)}},
+            {"module": M, "cfg": "C19_s.cfg", "workers": 8, "simulate": 800 if quick else 20000, "depth": 14, "seed": seed,
              "extra_defs": {"C19_s.cfg": cfg(10, 3, True)}}]
     with core.Scratch() as scratch:
         box = {}
